@@ -42,21 +42,24 @@ def check_store(c, clause, m, ts, v, ref):
   flag0 = state.cacheTooFull
   present = m in before and ts in before[m]
   inf = settings.CACHE_SIZE_HARD_MAX == float('inf')
-  full = (not inf) and size0 >= settings.CACHE_SIZE_HARD_MAX
+  no_room = (not inf) and size0 + 1 > settings.CACHE_SIZE_HARD_MAX
   try:
     c.store(m, (ts, v))
   except Exception as e:
     return 'no_raise: store raised %r' % (e,)
   after = snapshot(c)
   ov = instrumentation.stats.get('cache.overflow', 0) - ov0
-  refused = (not present) and full
-  accepted = (not present) and not full
+  # refused / accepted are defined by the observable outcome, as in the contract
+  stored = m in after and ts in after[m]
+  refused = (not present) and not stored
+  accepted = (not present) and stored
   want = {k: dict(x) for k, x in before.items()}
   if accepted or present:
     want.setdefault(m, {})[ts] = v
   res = {
     'bound': inf or c.size <= settings.CACHE_SIZE_HARD_MAX,
     'refuse_signal': ov == (1 if refused else 0),
+    'refuse_only_without_room': (not refused) or no_room,
     'refuse_frame': (not refused) or (after == before and c.size == size0 and list(c.new_metrics) == nm0),
     'refuse_frame_others': (not refused) or all(after.get(k) == before.get(k) for k in set(after) | set(before) if k != m),
     'update_when_full': (not present) or (c.size == size0 and after == want),
@@ -137,7 +140,38 @@ def search(clause, maxes, flows, strategies, depth):
   return {'native_confirms': False, 'histories_tried': tried}
 
 
+ALL_STORE = ['bound', 'refuse_signal', 'refuse_only_without_room', 'refuse_frame', 'refuse_frame_others', 'update_when_full', 'accept_view', 'lastwrite',
+             'frame_others', 'same_metric_other_timestamps', 'size_exact', 'new_metrics', 'flag_implies_above_low',
+             'no_empty_entries', 'no_raise']
+ALL_DRAIN = ['sorted_unique', 'items_exact', 'removed', 'size', 'size_exact', 'nonempty_batch', 'no_raise']
+
+
+def sweep(depth, seed, keys=None):
+  """bounded cross-check of the cache contracts on the real code: every clause, every strategy"""
+  evals = 0
+  fails = []
+  for strat in ['none', 'naive', 'max', 'sorted', 'timesorted', 'bucketmax', 'random']:
+    for key in ALL_STORE + ALL_DRAIN:
+      if keys and key not in keys:
+        continue
+      r = search('X/' + key, [1, 2, 3, float('inf')], [False, True], [strat], depth)
+      evals += r.get('histories_tried', 0)
+      if r.get('native_confirms') and len(fails) < 4:
+        fails.append({'id': 'cache-' + key, 'strategy': strat, 'history': r['history'], 'what': r['what'], 'settings': r['settings']})
+    for key in ('is_max',):
+      if strat in ('max', 'bucketmax') and (not keys or key in keys):
+        r = search('X/' + key, [float('inf')], [False], [strat], depth)
+        evals += r.get('histories_tried', 0)
+        if r.get('native_confirms') and len(fails) < 4:
+          fails.append({'id': 'cache-' + key, 'strategy': strat, 'history': r['history'], 'what': r['what']})
+  print('BOUNDED-RESULT ' + json.dumps({'evaluations': evals, 'distinct_cases': evals, 'failures': fails, 'depth': depth}))
+
+
 def main():
+  if sys.argv[1] == '--sweep':
+    depth = int(sys.argv[2])
+    keys = [k for k in sys.argv[3].split(',') if k] if len(sys.argv) > 3 and not sys.argv[3].startswith('--') else None
+    return sweep(depth, 0, keys)
   a = json.loads(sys.argv[1])
   out = search(a['clause'], a.get('maxes', [1, 2, 3, float('inf')]), a.get('flows', [False, True]),
                a.get('strategies', ['none']), a.get('depth', 4))
